@@ -54,16 +54,16 @@ func runC09(r *fw.Run) {
 	r.Rule("C09-R1", "no range over a map in the planning packages appends range-derived data to an outer slice that is not sorted afterwards, nor writes it to a writer/builder/hash (frozen exceptions carry a reason)")
 	// every entry was read on the pinned tree; the reason says why iteration order cannot reach the plan
 	frozen := map[string]string{
-		"plan.CostTreeNode.debugPrint/map-range1":                          "debug rendering of the cost tree, not part of any plan",
-		"plan.FederationFieldConfigurations.UniqueTypes/map-range1":        "no caller in the module (dead helper); result is a set of type names",
-		"plan.PathBuilder.CreatePlanningPaths/map-range1":                  "text of the internal error on the planning-failure path only",
-		"plan.nodeSelectionVisitor.updateSkipFieldRefs/map-range1":         "skipFieldsRefs is a set of field refs (only membership is ever queried)",
-		"plan.plannerPathsConfiguration.RemoveLeafFragmentPaths/map-range1": "local work list of deletions from maps; deletions commute",
-		"postprocess.colorExclusive/map-range1":                            "work list of a confluent fixed-point colouring; the result is a map",
-		"postprocess.colorExclusive/map-range2":                            "work list of a confluent fixed-point colouring; the result is a map",
-		"postprocess.weaklyConnectedComponents/map-range1":                 "BFS work list; every component is sorted before it is emitted",
-		"postprocess.mergeFields.deduplicateOnTypeNames/map-range1":        "OnTypeNames is a set of type names (only membership is ever queried by the renderer)",
-		"postprocess.schedule/map-range1":                                  "the per-root member lists are only handed to schedule(), which works on a sorted copy of its input (sortedCopy)",
+		"plan.CostTreeNode.debugPrint/map-range1":                            "debug rendering of the cost tree, not part of any plan",
+		"plan.FederationFieldConfigurations.UniqueTypes/map-range1":          "no caller in the module (dead helper); result is a set of type names",
+		"plan.PathBuilder.CreatePlanningPaths/map-range1":                    "text of the internal error on the planning-failure path only",
+		"plan.nodeSelectionVisitor.updateSkipFieldRefs/map-range1":           "skipFieldsRefs is a set of field refs (only membership is ever queried)",
+		"plan.plannerPathsConfiguration.RemoveLeafFragmentPaths/map-range1":  "local work list of deletions from maps; deletions commute",
+		"postprocess.colorExclusive/map-range1":                              "work list of a confluent fixed-point colouring; the result is a map",
+		"postprocess.colorExclusive/map-range2":                              "work list of a confluent fixed-point colouring; the result is a map",
+		"postprocess.weaklyConnectedComponents/map-range1":                   "BFS work list; every component is sorted before it is emitted",
+		"postprocess.mergeFields.deduplicateOnTypeNames/map-range1":          "OnTypeNames is a set of type names (only membership is ever queried by the renderer)",
+		"postprocess.schedule/map-range1":                                    "the per-root member lists are only handed to schedule(), which works on a sorted copy of its input (sortedCopy)",
 		"plan.NodeSelectionBuilder.rebuildFieldDependencyIndexes/map-range1": "per-field-ref dependency lists: the concatenation order across the (field, datasource) entries of one field ref reaches only the order of FetchInfo.CoordinateDependencies[].DependsOn (diagnostic listing; the inverse index is sorted, requests and response shape never read it); unverified observation in DESIGN §9",
 		"plan.nodeSelectionVisitor.pruneStaleFieldRequirements/map-range2":   "same index as rebuildFieldDependencyIndexes (same reason)",
 	}
@@ -555,7 +555,6 @@ func planWrites(p *fw.Prog, pkg string) (out []struct {
 	}
 	return out
 }
-
 
 // c09Immutability (R2): cached plans are shared by all requests; nothing in the run-time packages stores into them.
 func c09Immutability(r *fw.Run) {
